@@ -1,9 +1,9 @@
 #!/bin/bash
-# nre.sh <scanfile> : re-run only the (patch, property) pairs that alarmed in a previous neutralscan output
+# nre.sh <scanfile> [pooldir] : re-run only the (patch, property) pairs that alarmed in a previous neutralscan output
 grep -v "all silent" "$1" | while read -r line; do
   patch=$(echo "$line" | cut -d: -f1)
   for p in $(echo "$line" | grep -o 'C[0-9][0-9](rc' | cut -c1-3); do
-    out=$(/verif/tools/mut.sh $p /tmp/neutral1/$patch 2>&1); rc=$?
+    out=$(/verif/tools/mut.sh $p ${2:-/tmp/neutral1}/$patch 2>&1); rc=$?
     if [ $rc != 0 ]; then echo "$patch $p: $(echo "$out" | grep -o 'violated: [^ ]*\|INFRA.*' | cut -d/ -f1-3 | sort -u | head -4 | tr '\n' ' ')"; fi
   done
 done
